@@ -7,3 +7,4 @@ pub mod props;
 pub mod refcodec;
 pub mod refcrypto;
 pub mod report;
+pub mod sim;
